@@ -659,6 +659,35 @@ class Program:
         self.impl_cache[key] = info
         return info
 
+    def fn_generics(self, fn):
+        """names of the type parameters declared by a method itself (`fn name<T: .., U>(..)`), read from the source of
+        its impl block; [] when unknown"""
+        cache = self.__dict__.setdefault("_fn_generics", {})
+        key = (fn.crate, fn.name)
+        if key in cache:
+            return cache[key]
+        out = []
+        ms = list(self._re_impl_seg.finditer(fn.name))
+        if ms and "{closure" not in fn.name:
+            m = ms[-1]
+            method = fn.name[m.end():].lstrip(":").split("::")[0]
+            path = m.group(1)
+            import os
+            full = path if path.startswith("/") else os.path.join(self.repo_root, path)
+            if method and os.path.exists(full):
+                lines = open(full, errors="replace").read().split("\n")
+                a = int(m.group(2)) - 1
+                txt = "\n".join(lines[a:a + 800])        # the span covers the impl header only
+                mm = re.search(r"\bfn\s+%s\s*<([^()]*?)>\s*\(" % re.escape(method), txt, flags=re.S)
+                if mm:
+                    for part in split_top(mm.group(1)):
+                        part = part.strip()
+                        if not part or part.startswith("'") or part.startswith("const "):
+                            continue
+                        out.append(part.split(":")[0].strip())
+        cache[key] = out
+        return out
+
     def _index(self, crate, fns):
         for key, fn in fns.items():
             name = fn.name
@@ -1905,6 +1934,16 @@ class Engine:
             g = self.bind_generics(fn, callee)
             if g is None and frame is not None and frame.generics and getattr(fn, "impl_generics", None):
                 g = frame.generics
+            # the method's own type parameters, bound from the turbofish of the call
+            tf = re.search(r"::<([^<>]*(?:<[^<>]*(?:<[^<>]*>[^<>]*)*>[^<>]*)*)>$", callee)
+            if tf:
+                names = self.program.fn_generics(fn)
+                actual = [a.strip() for a in split_top(tf.group(1)) if not a.strip().startswith("'")]
+                if names and len(names) == len(actual):
+                    g = dict(g or {})
+                    for nme, act in zip(names, actual):
+                        if act != nme:
+                            g[nme] = act
             return self.run_fn(fn, args, g)
         raise Untranslatable("call " + callee)
 
